@@ -64,7 +64,7 @@ func New(p2pNode host.Host, peers []peer.ID, secret *k1.PrivateKey, sessionHash 
 		peers:         peers,
 	}
 
-	hashFunc := newHashAny(sessionHash)
+	hashFunc := newSenderHashAny(sessionHash)
 	signFunc := c.newK1Signer()
 	verifyFunc := c.newPeerK1Verifier(hashFunc)
 
@@ -79,7 +79,34 @@ func New(p2pNode host.Host, peers []peer.ID, secret *k1.PrivateKey, sessionHash 
 // newHashAny returns a function that hashes a message ID and a any-wrapped protobuf
 // message, binding them to the session hash. Fields are length-prefixed to
 // avoid ambiguous concatenation.
-func newHashAny(sessionHash []byte) hashFunc {
+// newSenderHashAny returns a function that hashes the broadcasting peer together with the
+// session, message ID and message, so that a signature over the hash is bound to that sender and
+// a fully signed message cannot be presented as having been broadcast by another peer.
+func newSenderHashAny(sessionHash []byte) hashFunc {
+	inner := newHashAny(sessionHash)
+
+	return func(sender peer.ID, msgID string, anyPB *anypb.Any) ([]byte, error) {
+		hash, err := inner(msgID, anyPB)
+		if err != nil {
+			return nil, err
+		}
+
+		h := sha256.New()
+		for _, field := range [][]byte{[]byte(sender), hash} {
+			if err := binary.Write(h, binary.BigEndian, uint64(len(field))); err != nil {
+				return nil, errors.Wrap(err, "write field length")
+			}
+
+			if _, err := h.Write(field); err != nil {
+				return nil, errors.Wrap(err, "write field")
+			}
+		}
+
+		return h.Sum(nil), nil
+	}
+}
+
+func newHashAny(sessionHash []byte) func(string, *anypb.Any) ([]byte, error) {
 	return func(msgID string, anyPB *anypb.Any) ([]byte, error) {
 		h := sha256.New()
 		for _, field := range [][]byte{sessionHash, []byte(msgID), []byte(anyPB.GetTypeUrl()), anyPB.GetValue()} {
@@ -108,8 +135,8 @@ func (c *Component) newK1Signer() func(string, []byte) ([]byte, error) {
 }
 
 // newPeerK1Verifier returns a function that verifies a hash using the given peer IDs (public keys).
-func (c *Component) newPeerK1Verifier(hashFunc hashFunc) func(string, *anypb.Any, [][]byte) error {
-	return func(msgID string, anyPB *anypb.Any, sigs [][]byte) error {
+func (c *Component) newPeerK1Verifier(hashFunc hashFunc) func(peer.ID, string, *anypb.Any, [][]byte) error {
+	return func(sender peer.ID, msgID string, anyPB *anypb.Any, sigs [][]byte) error {
 		if len(sigs) != len(c.peers) {
 			return errors.New("invalid number of signatures")
 		}
@@ -118,7 +145,7 @@ func (c *Component) newPeerK1Verifier(hashFunc hashFunc) func(string, *anypb.Any
 			return errors.New("invalid message id")
 		}
 
-		hash, err := hashFunc(msgID, anyPB)
+		hash, err := hashFunc(sender, msgID, anyPB)
 		if err != nil {
 			return errors.Wrap(err, "hash any")
 		}
